@@ -182,6 +182,9 @@ pub enum Script {
     Weird,
     /// constant score (the warm-up state of reuse=1)
     Flat,
+    /// scores on an exact grid of 1/4: a loop improves by exactly 0, 1/4, 1/2 ... - improvements EQUAL to a
+    /// convergence threshold of 1/4 or 1/2 recur (C20: "less than the threshold", consecutive loops)
+    Quant,
 }
 
 pub struct ScriptState {
@@ -298,6 +301,40 @@ impl Scripted {
                     let inc = 1e-3 * (1. + (hash2(self.sseed, 90_000 + k) % 7) as f64);
                     st.believed += inc;
                     Some(st.believed)
+                }
+            }
+            Script::Quant => {
+                if k == 0 {
+                    st.believed = 8.0;
+                    return Some(8.0);
+                }
+                let inner = s.inner_eff().max(1);
+                let lp = (k - 1) / inner;
+                let pos = (k - 1) % inner;
+                let cur = st.believed;
+                // the regime of this loop: no change / exactly one step of 1/4 / exactly two / a mix
+                let regime = [0u64, 0, 0, 0, 0, 1, 1, 1, 2, 3][(hash2(self.sseed, 7000 + lp) % 10) as usize];
+                let up = |st: &mut ScriptState, d: f64| { st.believed = cur + d; Some(st.believed) };
+                match regime {
+                    0 => if hash2(self.sseed, k) % 3 == 0 { None } else { Some(cur) },
+                    1 => if pos == 0 { up(&mut st, 0.25) } else if hash2(self.sseed, k) % 3 == 0 { None } else { Some(cur) },
+                    2 => if pos < 2 { up(&mut st, 0.25) } else { Some(cur) },
+                    _ => match hash2(self.sseed, k) % 5 {
+                        0 => up(&mut st, 0.25),
+                        1 => up(&mut st, 0.5),
+                        2 => None,
+                        3 => {
+                            // worse by exactly 1/4: the Metropolis rule decides
+                            let kt = s.spec_kt(lp);
+                            let thr = self.thresholds.get((k - 1) as usize).copied().unwrap_or(0.5);
+                            let new = cur - 0.25;
+                            if kt > 0. && thr < f64::exp((new - cur) / kt) {
+                                st.believed = new;
+                            }
+                            Some(new)
+                        }
+                        _ => Some(cur),
+                    },
                 }
             }
             Script::LnThr => {
@@ -562,6 +599,7 @@ pub fn run_scripted(spec: &Spec) -> Run {
         "plateau" => Script::Plateau,
         "forced" => Script::Forced,
         "lnthr" => Script::LnThr,
+        "quant" => Script::Quant,
         "weird" => Script::Weird,
         s => panic!("unknown script {}", s),
     };
